@@ -63,16 +63,16 @@ def verify():
         raise ControlFailure("panic audit: discharged_add must be discharged, reported %s" % open_by_fn.get("discharged_add"))
     res["panic_sites"] = {k: sorted(set(v)) for k, v in open_by_fn.items()}
     # lossy-conversion predicate (C06-P4)
-    from rules_codec import LOSSY
+    from rules_codec import is_lossy_call
 
     lossy = []
     for fn in prog.by_norm.values():
         for b, t in fn.all_calls():
             d, r, _ = prog.callee_of(t)
             cal = r or d or ""
-            if cal.split("::")[-1] in LOSSY and cal.startswith(("std::", "core::", "alloc::")):
+            if is_lossy_call(cal):
                 lossy.append(fn.name)
-    if lossy != ["lossy_text"]:
+    if sorted(lossy) != ["lossy_path", "lossy_text"]:
         raise ControlFailure("lossy-conversion predicate matched %s" % lossy)
     res["lossy"] = lossy
     # allocation range
